@@ -268,5 +268,5 @@ def harness(sym, part):
 
 MUTANTS = [
     ('remoter-wirelog-whole-buffer', 'hio/core/tcp/serving.py', "                self.wl.writeTx(data[:count], self.ca)", "                self.wl.writeTx(data, self.ca)"),
-    ('client-delete-one-more', 'hio/core/tcp/clienting.py', "            count = self.send(self.txbs)\n            del self.txbs[:count]", "            count = self.send(self.txbs)\n            del self.txbs[:count + (1 if count == 2 else 0)]"),
+    ('client-delete-one-more', 'hio/core/tcp/clienting.py', "            del self.txbs[:count]\n            break  # try again later", "            del self.txbs[:count + (1 if count == 2 else 0)]\n            break  # try again later"),
 ]
